@@ -21,10 +21,11 @@ Proof. exact buffer_bound_double_l. Qed.
 Print Assumptions buffer_bound_double.
 
 Example buffer_bound_double_nonvacuous :
-  In ("NumberToDOMString.theBuffer"%string, 347%nat) dbl_buffers /\ In 35%nat safe_printf_precisions /\
+  existsb (fun ns => String.eqb (fst ns) "NumberToDOMString.theBuffer" && Nat.eqb (snd ns) 347) dbl_buffers = true /\
+  existsb (Nat.eqb 35) safe_printf_precisions = true /\
   valid_binary prec emax (of_bits 0xFFEFFFFFFFFFFFFF) = true /\
   printf_bytes 35 (of_bits 0xFFEFFFFFFFFFFFFF) = 347%nat.
-Proof. vm_compute. repeat split; auto 10. Qed.
+Proof. vm_compute. repeat split. Qed.
 Print Assumptions buffer_bound_double_nonvacuous.
 
 (* integer conversions: any signed or unsigned 64-bit value stores at most 20 characters below the
@@ -42,8 +43,8 @@ Print Assumptions integer_decimal_length.
 
 Example integer_decimal_length_tight :
   scalar_dec_chars (- 2 ^ 63) = Some 20%nat /\ scalar_dec_chars (2 ^ 64 - 1) = Some 20%nat /\
-  scalar_dec_chars 0 = Some 1%nat /\ In (101, 100)%N int_dec_buffers.
-Proof. vm_compute. repeat split; auto. Qed.
+  scalar_dec_chars 0 = Some 1%nat /\ existsb (fun se => (fst se =? 101)%N && (snd se =? 100)%N) int_dec_buffers = true.
+Proof. vm_compute. repeat split. Qed.
 Print Assumptions integer_decimal_length_tight.
 
 Theorem buffer_bound_integer_hexadecimal : forall size e v,
@@ -81,8 +82,8 @@ Print Assumptions int2alpha_fits.
 Example int2alpha_fits_tight :
   option_map (@List.length N) (alpha_indices 25 (2 ^ 64 - 1)) = Some 14%nat /\
   option_map (@List.length N) (alpha_indices 26 (2 ^ 64 - 1)) = Some 14%nat /\
-  In ("s_elalphaCountTable"%string, 25%N) alpha_radixes.
-Proof. vm_compute. repeat split; auto. Qed.
+  existsb (fun nr => (snd nr =? 25)%N) alpha_radixes = true.
+Proof. vm_compute. repeat split. Qed.
 Print Assumptions int2alpha_fits_tight.
 
 (* Stylesheet::findTemplate: when the visited patterns are distinct, carry a priority above the
